@@ -272,8 +272,23 @@ Fixpoint replay (c : result cache) (locus : bytes) (maxn minpb : Z) (qs : list q
       end
   end.
 
+(* the comparison functions of distance.go called directly:
+   case = (dist xX xA xB)   obs = (<DistanceCmp(x,a,b)+1> <DistanceLz(a,b)> <LeadingZeros(x)>) *)
+Definition cmp_code (c : comparison) : N := match c with Lt => 0%N | Eq => 1%N | Gt => 2%N end.
+Definition run_dist (x a b : bytes) (obs : sx) : sx :=
+  let model := SL [SN (cmp_code (distance_cmp x a b)); SN (distance_lz a b); SN (leading_zeros x)] in
+  SL [model;
+      match obs with
+      | SL [SN c; SN lz; SN lzx] =>
+          if negb (N.eqb c (cmp_code (lex_compare (distance x a) (distance x b)))) then bad "DistanceCmp-disagrees-with-comparing-the-xor-distances"
+          else if negb (N.eqb lz (leading_zeros (distance a b))) then bad "DistanceLz-is-not-the-leading-zeros-of-the-distance"
+          else ok
+      | _ => bad "unexpected-result"
+      end].
+
 Definition run_cache (case obs : sx) : sx :=
   match case, obs with
+  | SL [t; SB x; SB a; SB b], _ => if is_sym "dist" t then run_dist x a b obs else bad_case
   | SL [t; SB locus; mx; mn; SL ops], SL obsl =>
       match z_of_sx mx, z_of_sx mn, qops_of_sx ops with
       | Some mx, Some mn, Some qs =>
